@@ -1,10 +1,13 @@
 """Shared by C03 / C04 / C10: scripted handlers for desper.EventDispatcher.
 
 A case is plain JSON:
-  classes : [{'base': index|None, 'names': [n..], 'maps': [[event, method]..]}]   class i = index
+  classes : [{'bases': [index..], 'names': [n..], 'maps': [[event, method]..], 'defs': [n..]}]   class i = index
+            ('base': index|None is accepted for old cases; 'defs' = method names the class (re)defines)
   hcls    : class index of handler 1..n
   holder  : per handler 'var' (a harness variable holds the only strong reference),
-            'w2' (component of a separate World), 'own' (component of the World under test)
+            'w2' (component of a separate World), 'own' / 'own_imm' / 'own_def' (component, alone in
+            its entity, of the World under test; dropped by remove_component /
+            delete_entity(e, immediate=True) / delete_entity(e) followed by process())
   eqs     : [[h, h0]..]  h is a distinct object that is == and hash-equal to h0 (K4 only)
   scripts : [[h, [[m, [action..]]..]]..]
   ops     : [action..]      the top level program
@@ -23,6 +26,12 @@ ARGS = [((), {}), ((7,), {}), ((7, 8), {}), ((), {'k': 1}), ((7,), {'k': 1, 'j':
 
 class ScriptError(Exception):
     pass
+
+
+def bases_of(c):
+    if 'bases' in c:
+        return list(c['bases'])
+    return [] if c.get('base') is None else [c['base']]
 
 
 def arg_code(args, kwargs):
@@ -59,35 +68,39 @@ class Runner:
     def build_classes(self):
         case = self.case
         nnames = 1 + max([0] + [n for c in case['classes'] for n in c['names']]
-                         + [x for c in case['classes'] for em in c['maps'] for x in em])
+                         + [x for c in case['classes'] for em in c['maps'] for x in em]
+                         + [n for c in case['classes'] for n in c.get('defs', [])])
         runner = self
 
-        def make_method(i):
+        def make_method(i, ci):
             def f(self, *args, **kwargs):
-                runner.on_call(self, i, args, kwargs)
+                runner.on_call(self, i, args, kwargs, ci)
             f.__name__ = 'n%d' % i
             return f
         frozen = bool(case.get('eqs'))
         self.classes = []
+        self.mro_obs = []
         for ci, c in enumerate(case['classes']):
-            own = set(c['names']) | {m for _, m in c['maps']}
+            bases = bases_of(c)
+            own = set(c['names']) | {m for _, m in c['maps']} | set(c.get('defs', []))
             ns = {}
-            if c['base'] is None:
+            if not bases:
                 own = set(range(nnames))
                 if frozen:
                     ns['__annotations__'] = {'v': int, 'hid': int}
             for i in own:
-                ns['n%d' % i] = make_method(i)
-            bases = (object,) if c['base'] is None else (self.classes[c['base']],)
-            k = type('C%d' % ci, bases, ns)
+                ns['n%d' % i] = make_method(i, ci)
+            k = type('C%d' % ci, tuple(self.classes[b] for b in bases) or (object,), ns)
             if frozen:
                 import dataclasses
-                if c['base'] is None:
+                if not bases:
                     k.hid = dataclasses.field(default=0, compare=False)
                 k = dataclasses.dataclass(frozen=True)(k)
-            k = self.desper.event_handler(*['n%d' % n for n in c['names']],
-                                          **{'n%d' % e: 'n%d' % m for e, m in c['maps']})(k)
-            self.classes.append(k)
+            k2 = self.desper.event_handler(*['n%d' % n for n in c['names']],
+                                           **{'n%d' % e: 'n%d' % m for e, m in c['maps']})(k)
+            self.decorator_returned_cls = getattr(self, 'decorator_returned_cls', True) and k2 is k
+            self.classes.append(k2)
+            self.mro_obs.append([self.classes.index(x) for x in k2.__mro__ if x in self.classes])
             self.cls_obs.append([self.read_events(x) for x in self.classes])
 
     @staticmethod
@@ -108,6 +121,7 @@ class Runner:
         self.objs = {}
         self.ents = {}
         self.wrefs = {}
+        self.styles = {}
         eqs = dict((h, h0) for h, h0 in case.get('eqs', []))
         for i, ci in enumerate(case['hcls']):
             h = i + 1
@@ -127,6 +141,7 @@ class Runner:
                 self.ents[h] = (self.w2, self.w2.create_entity(o), k)
             else:
                 self.ents[h] = (self.d, self.d.create_entity(o), k)
+                self.styles[h] = holder
                 self.d.remove_handler(o)      # start unregistered, like everybody else
             del o
 
@@ -137,8 +152,15 @@ class Runner:
         return w.get_component(e, k)
 
     # a callback was entered
-    def on_call(self, receiver, m, args, kwargs):
+    def on_call(self, receiver, m, args, kwargs, defcls=None):
         h = -1 if receiver is None else getattr(receiver, 'hid', -2)
+        if receiver is not None and defcls is not None:
+            # Python's own method resolution: the function that ran must be the one the
+            # receiver's class resolves the name to (an overriding subclass wins)
+            name = 'n%d' % m
+            want = next((k for k in type(receiver).__mro__ if name in k.__dict__), None)
+            if want is not self.classes[defcls]:
+                self.log.append(['error', 'wrong-function', name])
         tok = args[0] if args and isinstance(args[0], int) else -1
         self.log.append(['call', h, m, tok, arg_code(args[1:], kwargs)])
         if len(self.log) > 3000:
@@ -209,7 +231,14 @@ class Runner:
                 del self.objs[h]
             else:
                 w, e, k = self.ents.pop(h)
-                w.remove_component(e, k)
+                style = self.styles.get(h, 'own')
+                if style == 'own_imm':
+                    w.delete_entity(e, immediate=True)
+                elif style == 'own_def':
+                    w.delete_entity(e)          # the World row stays the last strong holder ...
+                    w.process(0)                # ... until the next frame clears dead entities
+                else:
+                    w.remove_component(e, k)
                 del w, e, k
             if self.wrefs[h]() is not None:
                 self.log.append(['survived', h])    # somebody holds the handler strongly
@@ -229,8 +258,10 @@ class Runner:
 
 def run(case):
     r = Runner(case)
+    if not r.decorator_returned_cls:
+        r.log.append(['error', 'decorator-returned-another-class'])
     r.top()
-    return {'classes': r.cls_obs, 'log': r.log, 'ctx': r.ctx}
+    return {'classes': r.cls_obs, 'mro': r.mro_obs, 'log': r.log, 'ctx': r.ctx}
 
 
 # --------------------------------------------------------------- encoding
@@ -280,8 +311,8 @@ def enc_mapping(m):
 
 
 def enc_cdef(i, c):
-    return ('{| cd_cls := %s; cd_base := %s; cd_names := %s; cd_maps := %s |}' % (
-        z(i), opt(None if c['base'] is None else z(c['base'])),
+    return ('{| cd_cls := %s; cd_bases := %s; cd_names := %s; cd_maps := %s |}' % (
+        z(i), lst([z(x) for x in bases_of(c)]),
         lst([z(n) for n in c['names']]), enc_mapping(c['maps'])))
 
 
@@ -291,9 +322,10 @@ def encode(case, trace):
     else:
         classes = []
         for i, (c, ob) in enumerate(zip(case['classes'], trace['classes'])):
-            tb = lst(['(%s, %s)' % (z(j), enc_mapping(m if m is not None else [[-1, -1], [-1, -1]]))
+            tb = lst(['(%s, %s)' % (z(j), opt(None if m is None else enc_mapping(m)))
                       for j, m in enumerate(ob)])
-            classes.append('(%s, %s)' % (enc_cdef(i, c), tb))
+            classes.append('(%s, {| co_mro := %s; co_tab := %s |})' % (
+                enc_cdef(i, c), lst([z(x) for x in trace['mro'][i]]), tb))
         log = [enc_entry(e) for e in trace['log']]
     scripts = lst(['(%s, %s)' % (z(h), lst(['(%s, %s)' % (z(m), lst([enc_action(a) for a in acts]))
                                             for m, acts in ms]))
@@ -307,39 +339,68 @@ def encode(case, trace):
 
 
 # ------------------------------------------------------------- generating
-def gen_classes(rng, nev):
-    """1-3 classes in chains; every mapping sends event e to a method m >= e
-    (termination of re-entrant scripts, see gen_case)."""
-    ncls = rng.randint(1, 3)
-    classes = []
-    for ci in range(ncls):
-        base = None if ci == 0 or rng.random() < 0.25 else rng.randrange(ci)
-        names, maps = [], []
-        for e in range(nev):
-            r = rng.random()
-            if r < (0.55 if base is None else 0.3):
-                names.append(e)
-            elif r < (0.8 if base is None else 0.55):
-                maps.append([e, rng.randint(e, nev)])
-        if base is None and not names and not maps:
-            names.append(rng.randrange(nev))
-        if base is not None and rng.random() < 0.15:
-            names, maps = [], []          # undecorated subclass: inherits by attribute lookup
-        rng.shuffle(names)
-        classes.append(dict(base=base, names=names, maps=maps))
-    return classes
+def linearise(classes):
+    """MRO of every class as Python computes it (dummy classes), or None when
+    Python rejects the hierarchy."""
+    ks = []
+    try:
+        for c in classes:
+            ks.append(type('D', tuple(ks[b] for b in bases_of(c)) or (object,), {}))
+    except TypeError:
+        return None
+    return [[ks.index(x) for x in k.__mro__ if x in ks] for k in ks]
 
 
 def final_mappings(classes):
-    out = []
-    for c in classes:
-        m = dict(out[c['base']]) if c['base'] is not None else {}
+    """Effective event -> method mapping of every class (None: no __events__);
+    used to place scripts and to bound the size of a case, not to judge."""
+    mros = linearise(classes)
+    own = []
+    for c, mro in zip(classes, mros):
+        inh = next((own[b] for b in mro[1:] if own[b] is not None), None)
+        if not c['names'] and not c['maps']:
+            own.append(None)
+            continue
+        m = dict(inh or {})
         for n in c['names']:
             m[n] = n
         for e, x in c['maps']:
             m[e] = x
-        out.append(m)
-    return out
+        own.append(m)
+    return [next((own[b] for b in mro if own[b] is not None), None) for mro in mros]
+
+
+def gen_classes(rng, nev):
+    """1-5 classes: roots, chains, diamonds and other multiple inheritance,
+    decorated and undecorated classes mixed; every mapping sends event e to a
+    method m >= e (termination of re-entrant scripts, see gen_case)."""
+    while True:
+        ncls = rng.choice([1, 2, 2, 3, 3, 4, 5])
+        classes = []
+        for ci in range(ncls):
+            r = rng.random()
+            if ci == 0 or r < 0.2:
+                bases = []
+            elif r < 0.6 or ci == 1:
+                bases = [rng.randrange(ci)]
+            else:
+                bases = rng.sample(range(ci), min(ci, rng.choice([2, 2, 3])))
+            names, maps = [], []
+            for e in range(nev):
+                r = rng.random()
+                if r < (0.5 if not bases else 0.3):
+                    names.append(e)
+                elif r < (0.8 if not bases else 0.55):
+                    maps.append([e, rng.randint(e, nev)])
+            if rng.random() < (0.15 if not bases else 0.25):
+                names, maps = [], []          # event_handler(): cls is returned unchanged
+            rng.shuffle(names)
+            defs = [n for n in range(nev + 1) if rng.random() < 0.3] if bases else []
+            classes.append(dict(bases=bases, names=names, maps=maps, defs=defs))
+        if linearise(classes) is None:
+            continue
+        if any(m is not None for m in final_mappings(classes)):
+            return classes
 
 
 def gen_script(rng, m, nh, nev, kinds, weights):
@@ -366,7 +427,7 @@ def cost_bound(case):
     (all handlers registered); used to discard explosive cases."""
     maps = final_mappings(case['classes'])
     scripts = {(h, m): acts for h, ms in case['scripts'] for m, acts in ms}
-    nev = 1 + max([0] + [e for mp in maps for e in mp])
+    nev = 1 + max([0] + [e for mp in maps if mp for e in mp])
     cost = {}
     for e in range(nev + 2, -1, -1):
         tot = 0
@@ -390,11 +451,12 @@ def gen_case(rng, mode):
     nev = rng.randint(1, 3)
     classes = gen_classes(rng, nev)
     nh = rng.randint(2, 5)
-    hcls = [rng.randrange(len(classes)) for _ in range(nh)]
+    usable = [i for i, m in enumerate(final_mappings(classes)) if m is not None]
+    hcls = [rng.choice(usable) for _ in range(nh)]
     kinds = ['add', 'remove', 'is', 'dispatch', 'clear', 'raise']
     w_top = [3, 3, 1.5, 5, 0.4, 0]
     w_cb = [2, 3, 0.5, 4, 0.3, 1.5]
-    dkind = 'plain'
+    dkind = 'world' if rng.random() < {3: 0.15, 4: 0.3, 10: 0.5}[mode] else 'plain'
     holder = ['var'] * nh
     if mode >= 4:
         kinds = kinds + ['enable']
@@ -404,15 +466,13 @@ def gen_case(rng, mode):
         kinds = kinds + ['drop']
         w_top = w_top + [2]
         w_cb = w_cb + [5]
-        if rng.random() < 0.4:
-            dkind = 'world'
         for i in range(nh):
             r = rng.random()
-            if dkind == 'world' and r < 0.5:
-                holder[i] = 'own'
-            elif r < 0.7 and r >= 0.5:
+            if dkind == 'world' and r < 0.7:
+                holder[i] = rng.choice(['own', 'own_imm', 'own_def'])
+            elif r >= 0.8:
                 holder[i] = 'w2'
-        if 'own' in holder:
+        if any(x.startswith('own') for x in holder):
             w_top[kinds.index('clear')] = 0
             w_cb[kinds.index('clear')] = 0
     maps = final_mappings(classes)
@@ -518,4 +578,18 @@ def stats(cases, traces):
             ctx[k] = ctx.get(k, 0) + v
     return dict(executed_actions=acts, log_entries=entries, actions_inside_callbacks=ctx,
                 hangs=hangs, dispatcher_kinds={k: sum(1 for c in cases if c.get('dkind') == k)
-                                               for k in ('plain', 'world')})
+                                               for k in ('plain', 'world')},
+                holders={k: sum(c.get('holder', []).count(k) for c in cases)
+                         for k in ('var', 'w2', 'own', 'own_imm', 'own_def')},
+                class_hierarchies={'%d classes, up to %d bases' % k: v for k, v in sorted(
+                    _count((len(c['classes']), max(len(bases_of(x)) for x in c['classes']))
+                           for c in cases).items())},
+                undecorated_classes=sum(1 for c in cases for x in c['classes']
+                                        if not x['names'] and not x['maps']))
+
+
+def _count(it):
+    d = {}
+    for k in it:
+        d[k] = d.get(k, 0) + 1
+    return d
